@@ -25,6 +25,9 @@ ASSUME {AngleClass(r) : r \in Rot} = {"axis", "generic", "small<=0.05", "small>0
 
 Case(g, tt, r, m, u) == [tgt |-> g, t |-> tt, rot |-> r, mix |-> m, undo |-> u]
 AllT == Targets(WorldOf(Roles))
+(* histories: two motions on the same object / three motions on fresh objects, back to back in one process *)
+SeqRot == {<<3, 4, 5, 0>>, <<0, 1, 1, 0>>, <<1599, 80, 1601, 0>>}
+SeqTargets == {g \in AllT : Len(g) <= 2 \/ Level(g) \in {"lanelet", "stop_line", "sign", "trajectory", "shape_rect", "shape_polygon"}}
 Cases ==
     (IF Full
      THEN {Case(g, tt, r, Roles, IF tt = <<0, 0>> THEN "none" ELSE IF tt = <<3, -2>> THEN "two" ELSE "one") :
@@ -36,6 +39,7 @@ Cases ==
           \cup {Case(g, <<-50, 70>>, r, Roles, "one") : g \in AllT, r \in MixRot}
           \cup {Case(g, <<0, 0>>, r, Roles, "none") : g \in AllT, r \in RotSample})
     \cup {Case(<<SC>>, <<3, -2>>, r, m, "none") : r \in MixRot, m \in (SUBSET Roles) \ {Roles}}
+    \cup {Case(g, pr[1], r, Roles, u) : g \in SeqTargets, pr \in SeqPairs, r \in SeqRot, u \in {"seq-same", "seq-other"}}
     \cup UNION {{Case(g, <<3, -2>>, r, {part}, "none") : g \in Targets(WorldOf({part})), r \in IF Full THEN Rot ELSE RotSample}
                 : part \in Parts}          \* the state-class universes: every class, every level, the sampled tokens
 
@@ -73,6 +77,7 @@ LawVel == rot \in AlgRot => \A c \in ScopeComps : \A i \in DOMAIN c.vels :
             LET v == c.vels[i]  w == Moved(c, t, rot).vels[i]
             IN /\ w[1] * w[1] + w[2] * w[2] = rot[3] * rot[3] * (v[1] * v[1] + v[2] * v[2])
                /\ c.vrule = "rotate" /\ v[1] * v[1] + v[2] * v[2] = 25 => <<w[1], w[2]>> = <<AngleSum(<<v[1], v[2], 5>>, rot)[1], AngleSum(<<v[1], v[2], 5>>, rot)[2]>>
+LawCompose == (undo \in {"seq-same", "seq-other"} /\ rot[3] <= 29) => \A p \in ScopePts : ComposeLaw(rot, t, Partner(t), p)
 (* TR followed by its Undo (either form) is the identity *)
 LawInv == rot \in AlgRot => AngleSum(<<rot[1], rot[2], rot[3]>>, Inv(rot)) = <<rot[3] * rot[3], 0, rot[3] * rot[3]>>
 LawInvValid == Inv(rot) \in Rot /\ Inv(Inv(rot))[1] = rot[1] /\ Inv(Inv(rot))[2] = rot[2]
@@ -111,6 +116,7 @@ G_LawUnit == Live => LawUnit
 G_LawVel == Live => LawVel
 G_LawInv == Live => LawInv
 G_LawInvValid == Live => LawInvValid
+G_LawCompose == Live => LawCompose
 G_LawUndoTwo == Live => LawUndoTwo
 G_LawUndoOne == Live => LawUndoOne
 G_LawUnion == Live => LawUnion
@@ -120,6 +126,7 @@ G_LawImplRigid == Live => LawImplRigid
 
 (* ---- generation ---- *)
 Emit == Live => PrintT(<<"CASE", ToJson([tgt |-> tgt, t |-> t, rot |-> rot, mix |-> mix, undo |-> undo,
-                                  steps |-> IF undo = "none" THEN <<>> ELSE UndoSteps(t, rot, undo),
+                                  steps |-> IF undo = "none" THEN <<>> ELSE IF undo \in {"seq-same", "seq-other"} THEN SeqSteps(t, rot, undo)
+                                            ELSE UndoSteps(t, rot, undo),
                                   cls |-> AngleClass(rot), level |-> Level(tgt)])>>)
 =================================================================================
